@@ -25,12 +25,21 @@ def chunkOf (limited : Bool) : Nat := if limited then minBucket else unlimitedGr
 
 /-- states a download passes through here; `failedCancelled` = FAILED with reason "Cancelled". -/
 inductive DState
-  | queued | downloading | complete | incomplete | failedCancelled
+  | queued | downloading | complete | incomplete | failedCancelled | paused
 deriving DecidableEq, Repr
+
+/-- what `TransferManager.write_cache()` persists of the download (transfer/model.py `__getstate__`): the state,
+the counter, the announced size and the local path. -/
+structure Saved where
+  st : DState
+  bt : Nat
+  filesize : Nat
+  hasPath : Bool
+deriving Repr
 
 structure Dl where
   filesize : Nat       -- `transfer.filesize` (announced in the last accepted PeerTransferRequest)
-  loc : Bytes          -- content of the local file (`[]` while it does not exist)
+  loc : Bytes          -- content of the file at `transfer.local_path` (`[]` while there is no path / no file)
   bt : Nat             -- `transfer.bytes_transfered`
   st : DState
   offset : Nat         -- last offset put on the wire
@@ -38,19 +47,24 @@ structure Dl where
   received : Nat       -- `bytes_received` of `receive_file`
   chunk : Nat          -- tokens per read of this attempt
   closed : Bool        -- the downloader disconnected the file connection
-  log : List Nat       -- ghost: size of every write of the current attempt (for the correspondence)
+  log : List Nat       -- ghost: size of every write reported to the progress callback in the current attempt
+  hasPath : Bool := false        -- `transfer.local_path` is set
+  saved : Option Saved := none   -- the transfer cache on disk
+  ann : Nat := 0                 -- ghost: size announced by the request of the attempt that began last
+  remote : Bytes := []           -- ghost: the uploader's shared file as it is now
+  served : Bytes := []           -- ghost: the shared file during the attempt that began last
 deriving Repr
 
-def Dl.init (pre : Bytes) : Dl :=
-  { filesize := 0, loc := pre, bt := 0, st := .queued, offset := 0, remaining := 0, received := 0,
-    chunk := chunkOf false, closed := false, log := [] }
+def Dl.init (pre : Bytes) (hasPath : Bool := true) : Dl :=
+  { filesize := 0, loc := if hasPath then pre else [], bt := 0, st := .queued, offset := 0, remaining := 0,
+    received := 0, chunk := chunkOf false, closed := false, log := [], hasPath := hasPath }
 
-/-- manager.py:1144-1149: `receive_file` returned normally → disconnect, then
+/-- manager.py `_download_file`: `receive_file` returned normally → disconnect, then
 `is_transfered()` decides COMPLETE / FAILED(Cancelled). -/
 def finish (d : Dl) : Dl :=
   { d with closed := true, st := if d.filesize = d.bt then .complete else .failedCancelled }
 
-/-- one iteration of the `receive_file` loop in which `read` returned `data` (connection.py:721-728):
+/-- one iteration of the `receive_file` loop in which `read` returned `data` (connection.py):
 write, progress callback, count, return when `bytes_received >= filesize`. -/
 def onRead (d : Dl) (data : Bytes) : Dl :=
   let d1 := { d with loc := d.loc ++ data, bt := d.bt + data.length,
@@ -65,26 +79,36 @@ def drain : Nat → Dl → Bytes → Dl
     if d.st ≠ .downloading ∨ buf = [] then d
     else drain fuel (onRead d (buf.take d.chunk)) (buf.drop d.chunk)
 
-/-- `_on_peer_transfer_request`, download branch: QUEUED / INCOMPLETE / FAILED go on, COMPLETE is
+/-- `_on_peer_transfer_request`, download branch: QUEUED / INCOMPLETE / FAILED go on, COMPLETE and PAUSED are
 refused, a transfer being processed ignores the request. -/
 def canBegin (d : Dl) : Bool :=
   d.st = .queued || d.st = .incomplete || d.st = .failedCancelled
 
 /-- `_initialize_download` from the offset on + `_download_file` up to the first read:
-`offset = getsize(local_path)`, `bytes_transfered = offset`, offset sent, DOWNLOADING,
+`filesize = request.filesize`, `offset = getsize(local_path)` — whatever `bytes_transfered` says —,
+`bytes_transfered = offset`, offset sent, path claimed, DOWNLOADING,
 `receive_file(handle, filesize - bytes_transfered)`; the FIXED `receive_file` returns at once when
-nothing remains. -/
+nothing remains. Ghost: the attempt is served from the shared file as it is now. -/
 def begin (d : Dl) (announced : Nat) (limited : Bool) : Dl :=
   let off := d.loc.length
   let d1 := { d with filesize := announced, offset := off, bt := off,
                      remaining := (announced : Int) - (off : Int), received := 0,
-                     chunk := chunkOf limited, st := .downloading, closed := false, log := [] }
+                     chunk := chunkOf limited, st := .downloading, closed := false, log := [],
+                     hasPath := true, ann := announced, served := d.remote }
   if d1.remaining ≤ 0 then finish d1 else d1
 
 /-- the file connection breaks after the ticket but before the offset went out: FIXED code puts the
-download back to QUEUED (manager.py:839-845). -/
+download back to QUEUED (`_initialize_download`); `_download_file` (which claims the path) is not reached. -/
 def beginCut (d : Dl) (announced : Nat) : Dl :=
-  { d with filesize := announced, bt := d.loc.length, st := .queued, closed := true, log := [] }
+  { d with filesize := announced, bt := d.loc.length, st := .queued, closed := true, log := [],
+           ann := announced, served := d.remote }
+
+/-- `read_cache()`: a transfer stored while DOWNLOADING comes back COMPLETE when the counter had reached the
+size, INCOMPLETE otherwise; (INITIALIZING → QUEUED is not a state of this model); the rest as stored. -/
+def Saved.restore (s : Saved) : DState :=
+  match s.st with
+  | .downloading => if s.filesize = s.bt then .complete else .incomplete
+  | st => st
 
 inductive Op
   | begin (announced : Nat) (limited : Bool)   -- request accepted, file connection, offset sent
@@ -92,6 +116,15 @@ inductive Op
   | seg (bs : Bytes)                           -- these bytes become readable
   | eof                                        -- the sender closed the connection
   | err                                        -- reset or read time-out (ConnectionReadError)
+  | remote (F : Bytes)                         -- ghost: the uploader's shared file is replaced by `F`
+  | pause                                      -- `pause()` while no chunk is on its way to the disk
+  | pauseWrite (bs : Bytes)                    -- `bs` became readable, one read was taken and handed to the
+                                               --   disk-write thread; `pause()` cancels the task before it counts it
+  | queue                                      -- `queue()` by the user (PAUSED / INCOMPLETE / FAILED)
+  | save                                       -- `write_cache()`
+  | crash (keep : Nat)                         -- the process dies (of what this attempt wrote, `keep` bytes — at
+                                               --   least the file as it was when opened — had reached the disk);
+                                               --   a new instance loads the cache
 deriving Repr
 
 def step (d : Dl) : Op → Dl
@@ -100,12 +133,36 @@ def step (d : Dl) : Op → Dl
   | .seg bs => if d.st = .downloading then drain bs.length d bs else d
   | .eof => if d.st = .downloading then finish d else d
   | .err => if d.st = .downloading then { d with st := .incomplete, closed := true } else d
+  | .remote F => if d.st = .downloading then d else { d with remote := F }
+  | .pause =>
+    -- state.py: DownloadingState.pause cancels the task (→ disconnect), Queued/IncompleteState.pause
+    if d.st = .downloading then { d with st := .paused, closed := true }
+    else if d.st = .queued ∨ d.st = .incomplete then { d with st := .paused }
+    else d
+  | .pauseWrite bs =>
+    -- connection.py `receive_file`: `await file_handle.write(data)` is where the cancellation lands; the
+    -- progress callback never runs for `data`
+    if d.st = .downloading then { d with loc := d.loc ++ bs.take d.chunk, st := .paused, closed := true } else d
+  | .queue =>
+    -- Paused/Incomplete/FailedState.queue (a COMPLETE download re-queued by the user starts a NEW file: not here)
+    if d.st = .paused ∨ d.st = .incomplete ∨ d.st = .failedCancelled then { d with st := .queued } else d
+  | .save => { d with saved := some { st := d.st, bt := d.bt, filesize := d.filesize, hasPath := d.hasPath } }
+  | .crash keep =>
+    match d.saved with
+    | none => d
+    | some s =>
+      { d with st := s.restore, bt := s.bt, filesize := s.filesize, hasPath := s.hasPath,
+               loc := if s.hasPath then
+                        (if d.st = .downloading then d.loc.take (max keep d.offset) else d.loc)
+                      else [],
+               closed := if d.st = .downloading then true else d.closed }
 
 def run (d : Dl) (ops : List Op) : Dl := ops.foldl step d
 
-/-- An op list produced against an HONEST uploader of file `F`: every request announces `|F|`, and
-the bytes that become readable continue `F` where the local file ends (the uploader seeks to the
-offset it was sent, TCP delivers in order). Cuts (`eof`, `err`, `beginCut`) are unrestricted. -/
+/-- An op list produced against an HONEST uploader of a file `F` that does not change: every request
+announces `|F|`, and the bytes that become readable continue `F` where the local file ends (the uploader
+seeks to the offset it was sent, TCP delivers in order). Cuts (`eof`, `err`, `beginCut`), user actions
+(`pause`, `queue`) and restarts (`save`, `crash`) are unrestricted. -/
 def Honest (F : Bytes) : Dl → List Op → Prop
   | _, [] => True
   | d, op :: ops =>
@@ -113,7 +170,28 @@ def Honest (F : Bytes) : Dl → List Op → Prop
       | .begin a _ => a = F.length
       | .beginCut a => a = F.length
       | .seg bs => d.st = .downloading → bs <+: F.drop d.loc.length
+      | .pauseWrite bs => d.st = .downloading → bs <+: F.drop d.loc.length
       | _ => True) ∧ Honest F (step d op) ops
+
+/-- An honest uploader whose shared file CHANGES between attempts (`remote F'`): every request announces the
+size the file has at that moment, and the attempt is served from that file, from the offset it was sent. -/
+def HonestV : Dl → List Op → Prop
+  | _, [] => True
+  | d, op :: ops =>
+    (match op with
+      | .begin a _ => a = d.remote.length
+      | .beginCut a => a = d.remote.length
+      | .seg bs => d.st = .downloading → bs <+: d.served.drop d.loc.length
+      | .pauseWrite bs => d.st = .downloading → bs <+: d.served.drop d.loc.length
+      | _ => True) ∧ HonestV (step d op) ops
+
+/-- … and the file only ever grows at its end (a log, a recording). -/
+def Grows : Dl → List Op → Prop
+  | _, [] => True
+  | d, op :: ops =>
+    (match op with
+      | .remote F => d.remote <+: F
+      | _ => True) ∧ Grows (step d op) ops
 
 /-! ## Upload side -/
 
@@ -169,7 +247,7 @@ def urun (F : Bytes) (u : Ul) (ops : List UOp) : Ul := ops.foldl (ustep F) u
 
 def DState.name : DState → String
   | .queued => "QUEUED" | .downloading => "DOWNLOADING" | .complete => "COMPLETE"
-  | .incomplete => "INCOMPLETE" | .failedCancelled => "FAILED:Cancelled"
+  | .incomplete => "INCOMPLETE" | .failedCancelled => "FAILED:Cancelled" | .paused => "PAUSED"
 
 def UState.name : UState → String
   | .queued => "QUEUED" | .sending => "UPLOADING" | .awaitEof => "UPLOADING-EOFWAIT"
